@@ -30,6 +30,9 @@ def sym(ctx, cfg):
     n, desc, skind, lkind = cfg["n"], cfg["desc"], cfg["skind"], cfg["lkind"]
     zs = [z3.Real("s%d" % i) if skind == "real" else z3.Int("s%d" % i) for i in range(n)]
     scores = symnp.SArray([SNum(z) for z in zs], symnp.float64 if skind == "real" else symnp.int8 if skind == "int8" else symnp.int64)
+    if skind == "int":
+        for z in zs:
+            ctx.assume(z3.And(z >= -2 ** 63, z <= 2 ** 63 - 1))  # int64
     if skind == "int8":
         for z in zs:
             ctx.assume(z3.And(z >= -128, z <= 127))  # the whole range of the dtype, its minimum included
